@@ -5,9 +5,28 @@ namespace MaddyVerif.Expect.FuncSkelC04
 def funcs : List (String × String) := [
   ("framework/address/norm.go:ForLookup", "b44bc88d5db8964d"),
   ("framework/dns/norm.go:ForLookup", "db7766b1858341fc"),
+  ("internal/modify/group.go:Group.Init", "8a7190be7d77877e"),
+  ("internal/modify/group.go:Group.InstanceName", "710ae792e8e9ac1d"),
+  ("internal/modify/group.go:Group.ModStateForMsg", "8969d9aadbc7c26c"),
+  ("internal/modify/group.go:Group.Name", "446ecdc662d5bee0"),
+  ("internal/modify/group.go:groupState.Close", "541e326fe1621ae5"),
+  ("internal/modify/group.go:groupState.RewriteBody", "b86b0c03febb3e0c"),
+  ("internal/modify/group.go:groupState.RewriteRcpt", "ca562cc899e7c16c"),
+  ("internal/modify/group.go:groupState.RewriteSender", "dd6edf4b615e7521"),
+  ("internal/modify/group.go:init", "603c8b1b14993320"),
+  ("internal/modify/group.go:type Group", "7dc0a93cdb0196ca"),
+  ("internal/modify/group.go:type groupState", "171b162ec41164a4"),
+  ("internal/msgpipeline/config.go:parseChecksGroup", "cd432d0de3bc4e1b"),
+  ("internal/msgpipeline/config.go:parseEnhancedCode", "09fb8bd2bca44007"),
+  ("internal/msgpipeline/config.go:parseModifiersGroup", "9a44ebf0f487f1ca"),
   ("internal/msgpipeline/config.go:parseMsgPipelineRcptCfg", "f75173010a223cbb"),
   ("internal/msgpipeline/config.go:parseMsgPipelineRootCfg", "f29b27a87cfeec9a"),
   ("internal/msgpipeline/config.go:parseMsgPipelineSrcCfg", "0e17158f5a09d249"),
+  ("internal/msgpipeline/config.go:parseRejectDirective", "8088995939f9593b"),
+  ("internal/msgpipeline/config.go:type msgpipelineCfg", "66b7381cae9aebcf"),
+  ("internal/msgpipeline/config.go:type sourceIn", "db52ad3cfe4ec85e"),
+  ("internal/msgpipeline/config.go:validMatchRule", "691ad6f172509cc5"),
+  ("internal/msgpipeline/msgpipeline.go:MsgPipeline.Start", "2567ac34fcd9d9e9"),
   ("internal/msgpipeline/msgpipeline.go:msgpipelineDelivery.AddRcpt", "4a921086f6367c2d"),
   ("internal/msgpipeline/msgpipeline.go:msgpipelineDelivery.rcptBlockForAddr", "85340c694dae1c5e"),
   ("internal/msgpipeline/msgpipeline.go:msgpipelineDelivery.srcBlockForAddr", "ac85a9939a6cdf22")
